@@ -973,13 +973,13 @@ def plan(ctx: Ctx) -> List[Dict[str, Any]]:
     return [
         dict(name="structure<=4", actions=4, depth=3, fields=2, kinds=rep, blocks=ALL_BLOCKS, free=False, sample=None),
         dict(name="fields<=3", actions=3, depth=2, fields=3, kinds=ALL_KINDS, blocks=["para", "list", "lit"], free=False,
-             sample=40000),
+             sample=25000),
         dict(name="free-choice", actions=3, depth=3, fields=1, kinds=["param", "raises"], blocks=ALL_BLOCKS, free=True,
-             sample=30000),
+             sample=20000),
         dict(name="structure=5", actions=5, depth=3, fields=1, kinds=["param", "note"], blocks=ALL_BLOCKS, free=False,
-             sample=40000),
+             sample=25000),
         dict(name="nesting<=6", actions=6, depth=3, fields=0, kinds=[], blocks=["para", "list", "lit", "doctest"], free=False,
-             sample=30000),
+             sample=20000),
     ]
 
 
@@ -1111,11 +1111,15 @@ def run(ctx: Ctx) -> int:
     seen_seq = set()
     ep_records: List[Dict[str, Any]] = []
     for i, ec in enumerate(ep_cfgs):
-        r = ctx.tlc("Epytext", EP_CFG.format(**ec), workers="auto", check=True, coverage=(ctx.quick and i == 0), timeout=2400)
+        r = ctx.tlc("Epytext", EP_CFG.format(**ec), workers="auto", check=True, coverage=ctx.quick, timeout=2400)
         if r.violated:
             ctx.extra.setdefault("epytext_design_level_violations", []).extend(r.violated)
         if r.coverage:
-            ctx.extra["epytext_action_coverage"] = {k: v for k, v in r.coverage.items() if k[0].isupper() and k not in ("Init",)}
+            cov = ctx.extra.setdefault("epytext_action_coverage", {})
+            for k, v in r.coverage.items():
+                if k[0].isupper() and k not in ("Init", "Emit"):
+                    cov[k] = cov.get(k, 0) + v
+            ctx.extra["epytext_actions_never_taken"] = [k for k, v in cov.items() if v == 0]
         new = []
         for rec in r.printed:
             k = json.dumps(rec["toks"], sort_keys=True)
